@@ -1653,7 +1653,7 @@ class C05(Check):
         "real": "cirq.Circuit, cirq.FrozenCircuit, cirq.Moment, insert strategies, op_tree flattening, all queries",
         "stub": "nothing is stubbed; the reference is engines/circuit_model.py (list of lists of abstract operations)",
     }
-    tiers = {"quick": {"runs": 14000, "wall": 300}, "thorough": {"runs": 300000, "wall": 2400}}
+    tiers = {"quick": {"runs": 14000, "wall": 85}, "thorough": {"runs": 300000, "wall": 1500}}
     per_run_timeout = 60
     expected_probes = ["query-between-two-appends", "append-after-mid-circuit-insert", "failed-inline-batch",
                        "clear-with-failing-index-iterator", "unfreeze-copy-false", "negative-index-below-minus-len",
